@@ -55,6 +55,10 @@ def strategy(ctx) -> st.SearchStrategy:
         "sched_b": st.lists(_pair, min_size=7, max_size=7),
         "order": st.lists(st.integers(0, 7), min_size=8, max_size=8),
         "excl": st.fixed_dictionaries({"code": _idx, "true": _idx, "false": _idx}),
+        # suites in which cloned chromosomes share one execution result: a sequence of member indices with repeats and
+        # a rotation/reversal of it (the same multiset of result objects in another order)
+        "shared": st.lists(st.integers(0, 7), min_size=3, max_size=7),
+        "shared_rot": st.integers(1, 6),
     })
 
 
@@ -158,6 +162,22 @@ def evaluate(case: dict[str, Any]) -> Outcome:
         if bad:
             out.fail("merge|family-result-differs-from-reference|" + ",".join(bad),
                      f"{name}: " + "; ".join(f"{k}: got {obs[k]!r} want {want[k]!r}" for k in bad))
+    # ---- (1b) the same result OBJECT several times in one suite (clones share their last execution result)
+    shared_objs = [T.result_with(b()) for b in builders]
+    seq = [i % n for i in case.get("shared", [])]
+    if len(seq) >= 2:
+        rot = case.get("shared_rot", 1) % len(seq)
+        orders = {"as-drawn": seq, "rotated": seq[rot:] + seq[:rot], "sorted": sorted(seq), "reversed": seq[::-1]}
+        want_shared = _ref_obs(T.ref_merge([refs[i] for i in seq]))
+        for oname, order_ in orders.items():
+            got = _observe(fm.analyze_results([shared_objs[i] for i in order_]))
+            bad = _diff_fields(got, want_shared)
+            if bad:
+                out.fail("analyze_results|shared-result-objects|differs-from-reference|" + ",".join(bad),
+                         f"order {oname} {order_}: " + "; ".join(f"{k}: got {got[k]!r} want {want_shared[k]!r}" for k in bad))
+                break
+        if len(set(seq)) < len(seq):
+            out.labels.append("class:shared-result-object-repeated")
     if obs_a is not None and obs_b is not None and obs_a != obs_b:
         out.fail("merge|order-or-grouping-dependent|" + ",".join(_diff_fields(obs_a, obs_b)), "two schedules, two results")
     # merging into a fresh trace reproduces the trace (what the import_trace copy and init_trace rely on)
